@@ -418,6 +418,7 @@ def run(ctx, chk):
     if not shared.identity_on_values(ctx, chk, "C08.5", ("roberta_generator.py", "stochastic_game_from_roborta_board.py")):
         chk.ok("C08.5", "roberta_generator.py", "no identity comparison (`is`) between computed values in the generator")
     from . import C11
+    C11.r1b_writes_unconditional(ctx, chk, "C08.pre:C11.1")      # what the model describes is what ends up in the file only if the file is written
     C11.r5_manual_entry(ctx, chk, "C08.4")      # the manual entry point hands the board and the probabilities on unchanged
     _canary(ctx, chk)
     chk.require_instances("C08.1", 3)
